@@ -363,39 +363,31 @@ def run(ctx):
     r2 = Rule("C03", "C03.R2", "lookup discipline: unknown and ambiguous names are errors before any use of the map", floor=8,
               necessary="a reference to a missing or duplicated name would be resolved silently (or crash) instead of failing with its name")
     vr = scls.methods["_var_repl_function"]
-    g = cfgmod.build(vr.node.body)
-    nested_users = set()
-    for f in repo.all_functions():
-        if f.parent is vr and any(isinstance(x, ast.Subscript) and norm(x.value) == "self._xpath" for x in walk_own(f.node)):
-            nested_users.add(f.name)
-    g_unknown = [nid for nid, n in g.nodes.items() if n.kind == "test" and isinstance(n.stmt, ast.Compare) and isinstance(n.stmt.ops[0], ast.NotIn)
-                 and norm(n.stmt.comparators[0]) == "self._xpath"]
-    g_ambig = [nid for nid, n in g.nodes.items() if n.kind == "test" and isinstance(n.stmt, ast.Compare) and isinstance(n.stmt.ops[0], ast.Is)
-               and norm(n.stmt.left).startswith("self._xpath[") and norm(n.stmt.comparators[0]) == "None"]
-    r2.check(len(g_unknown) == 1 and len(g_ambig) == 1, "_var_repl_function:guards", "one membership test and one ambiguity (None sentinel) test exist", vr.loc())
-    if len(g_unknown) == 1 and len(g_ambig) == 1:
-        for gid, what in ((g_unknown[0], "unknown name"), (g_ambig[0], "ambiguous name")):
-            true_succ = [y for y, lab in g.succ[gid] if lab == "true"]
-            raises = bool(true_succ) and isinstance(g.nodes[true_succ[0]].stmt, ast.Raise)
-            rs = g.nodes[true_succ[0]].stmt if raises else None
-            okm = False
-            if raises:
-                okm = _raises_pyxform(ctx, vr, rs) and _mentions(vr, rs, {"name", "matchobj"})
-            r2.check(raises and okm, f"_var_repl_function:{what}", f"{what} raises PyXFormError naming the reference", vr.loc(g.nodes[gid].stmt))
-        uses = []
-        for nid, n in g.nodes.items():
-            if n.stmt is None or nid in g_unknown:
-                continue
-            exprs = cfgmod.own_exprs(n.stmt)
-            direct = any(isinstance(x, ast.Subscript) and norm(x.value) == "self._xpath" for x in exprs)
-            viacall = any(isinstance(x, ast.Call) and isinstance(x.func, ast.Name) and x.func.id in nested_users for x in exprs)
-            if direct or viacall:
-                uses.append(nid)
-        for nid in uses:
-            need = {g_unknown[0]} if nid in g_ambig else {g_unknown[0], g_ambig[0]}
-            ok = all(g.must_pass(g.entry, nid, {x}) for x in need)
-            # and must be reached through the *false* edges of the guards (guards really filter)
-            r2.check(ok, f"_var_repl_function:use {norm(g.nodes[nid].stmt)[:50]}", "read of the name->element map is dominated by the unknown/ambiguous checks", vr.loc(g.nodes[nid].stmt))
+    # evaluated on a small tree (real name map, real substituter): a reference to a name no element has, or to a name two
+    # elements share, is refused with the library's error naming it - in every expression form, from every context, with
+    # every flag combination; nothing is read from the map for such a name
+    from .. import trees as _trees
+    import itertools as _it2
+    spec_ = ("data", [("q", "a"), ("r", "r1", [("q", "phone"), ("q", "c")]), ("g", "g2", [("q", "phone")])])
+    ix_ = scls.methods["insert_xpaths"]
+    sx_ = scls.methods["_setup_xpath_dictionary"]
+    FORMS_ = ("${X}", "${X} + 1", "1 + ${a} + ${X}", "${last-saved#X}", "indexed-repeat(${X}, ${r1}, 1)", "indexed-repeat(${c}, ${r1}, ${X})", "instance('l')/root/item[n = ${X} ]/label", "${a} and ${X} and ${c}")
+    n_forms = 0
+    for bad_, kind_ in (("nobody", "unknown"), ("phone", "ambiguous")):
+        for form_, ctx_name, use_cur, ref_par in _it2.product(FORMS_, ("a", "c"), (False, True), (False, True)):
+            survey_, by_, _all = _trees.build(ctx, spec_)
+            itx_ = ctx.interp("C03.R2")
+            itx_.reset([])
+            itx_.call_function(sx_, [survey_], {}, None, sx_.node)
+            try:
+                out_ = itx_.call_function(ix_, [survey_, form_.replace("X", bad_), by_[ctx_name]], {"use_current": use_cur, "reference_parent": ref_par}, None, ix_.node)
+                got_ = f"substituted: {out_!r}"
+            except Raised as e:
+                got_ = "refused" if ("PyXFormError" in e.mro and bad_ in str(e.exc_args[0] if e.exc_args else "")) else f"raises {e.exc_name}{e.exc_args}"
+            n_forms += 1
+            r2.check(got_ == "refused", f"insert_xpaths[{kind_} name in `{form_}`, context {ctx_name}, use_current={use_cur}, reference_parent={ref_par}]",
+                     "refused with PyXFormError naming the reference", ix_.loc(), why_fail=got_[:160])
+    ctx.count("unknown_ambiguous_reference_forms", n_forms)
     # the map builder: second sight stores the sentinel
     sx = scls.methods["_setup_xpath_dictionary"]
     els = [Obj(None, {"name": n}, name=f"el_{n}_{i}") for i, n in enumerate(["a", "b", "a", "c"])]
